@@ -10,6 +10,13 @@
 (* other's strings); for every scheme the module emits, for every          *)
 (* candidate reference, the item it denotes (0 = none).                    *)
 (*                                                                         *)
+(* An MR dimension whose variable view carries insertions has some of its  *)
+(* items INSERTED by the server (`ins`, the items with an anchor); for     *)
+(* such a dimension a numeric string that spells the element id of a       *)
+(* NON-inserted item denotes that item before the sub-variable ids are     *)
+(* consulted (rule 2b: the server numbers sub-variable ids of base items   *)
+(* 1, 2, 3 while element ids count the inserted items too).                *)
+(*                                                                         *)
 (* The property: in every transform slot, a reference that denotes item k  *)
 (* gives the output the alias of item k gives; a reference that denotes    *)
 (* nothing is ignored.                                                     *)
@@ -24,25 +31,31 @@ CONSTANTS
   Numeric,      \* function: numeric string -> its integer value (domain = the numeric strings)
   ExtraStrs,    \* further candidate strings (stale, malformed)
   ExtraInts,    \* further candidate integers
+  Canon,        \* function: element id (integer) -> its decimal spelling
   SimMode,      \* TRUE: only a random sample of schemes (Sample per identifier kind)
   Sample
 
-VARIABLES alias, svid, eid
-vars == <<alias, svid, eid>>
+VARIABLES alias, svid, eid,
+          ins       \* the server-inserted items of an MR dimension ({} = no view insertions)
+vars == <<alias, svid, eid, ins>>
 
 Items == 1..N
 Inj(f) == \A a, b \in Items : a # b => f[a] # f[b]
 
 Schemes(pool) == {f \in [Items -> pool] : Inj(f)}
+\* at least one item is a base item (an inserted item is computed from base items)
+InsSets == (SUBSET Items) \ {Items}
 
 Init ==
   IF SimMode
   THEN /\ alias \in RandomSubset(Sample, Schemes(AliasPool))
        /\ svid \in RandomSubset(Sample, Schemes(SvidPool))
        /\ eid \in RandomSubset(Sample, Schemes(EidPool))
+       /\ ins \in RandomSubset(2, InsSets \ {{}}) \cup {{}}
   ELSE /\ alias \in Schemes(AliasPool)
        /\ svid \in Schemes(SvidPool)
        /\ eid \in Schemes(EidPool)
+       /\ ins \in InsSets
 Next == UNCHANGED vars
 Spec == Init /\ [][Next]_vars
 
@@ -55,24 +68,30 @@ AsInt(v)  == IF v.t = "i" THEN v.i ELSE Numeric[v.s]
 
 ItemWith(f, x) == CHOOSE k \in Items : f[k] = x
 
-\* the ordered cascade (dimension.py::_ElementIdShim.translate_element_id)
-Resolve(v) ==
+\* the ordered cascade (dimension.py::_ElementIdShim.translate_element_id), for a
+\* dimension whose server-inserted items are I
+BaseEidStr(v, I) == v.t = "s" /\ I # {} /\ \E k \in Items \ I : Canon[eid[k]] = v.s
+ResolveWith(v, I) ==
   IF v.t = "s" /\ \E k \in Items : alias[k] = v.s THEN ItemWith(alias, v.s)          \* 1 alias
   ELSE IF v.t = "i" /\ \E k \in Items : eid[k] = v.i THEN ItemWith(eid, v.i)         \* 2 element id
+  ELSE IF BaseEidStr(v, I) THEN CHOOSE k \in Items \ I : Canon[eid[k]] = v.s         \* 2b spelled element id of a base item
   ELSE IF v.t = "s" /\ \E k \in Items : svid[k] = v.s THEN ItemWith(svid, v.s)       \* 3 sub-variable id
   ELSE IF ~HasInt(v) THEN 0
   ELSE IF \E k \in Items : eid[k] = AsInt(v) THEN ItemWith(eid, AsInt(v))            \* 4 parsed element id
   ELSE IF AsInt(v) >= 0 /\ AsInt(v) < N THEN AsInt(v) + 1                            \* 5 position
   ELSE 0                                                                             \* 6 nothing
+Resolve(v) == ResolveWith(v, ins)
 
-\* which rule decided (for the feature histogram)
-Rule(v) ==
+\* which rule decided (for the feature histogram); 7 = rule 2b
+RuleWith(v, I) ==
   IF v.t = "s" /\ \E k \in Items : alias[k] = v.s THEN 1
   ELSE IF v.t = "i" /\ \E k \in Items : eid[k] = v.i THEN 2
+  ELSE IF BaseEidStr(v, I) THEN 7
   ELSE IF v.t = "s" /\ \E k \in Items : svid[k] = v.s THEN 3
   ELSE IF ~HasInt(v) THEN 6
   ELSE IF \E k \in Items : eid[k] = AsInt(v) THEN 4
   ELSE IF AsInt(v) >= 0 /\ AsInt(v) < N THEN 5 ELSE 6
+Rule(v) == RuleWith(v, ins)
 
 Candidates ==
   {StrV(alias[k]) : k \in Items} \cup {StrV(svid[k]) : k \in Items}
@@ -87,6 +106,13 @@ ThmAliasAndEidResolve ==
   \A k \in Items : Resolve(StrV(alias[k])) = k /\ Resolve(IntV(eid[k])) = k
 ThmRewriteIdempotent ==
   \A v \in Candidates : Resolve(v) # 0 => Resolve(StrV(alias[Resolve(v)])) = Resolve(v)
+\* rule 2b only ever re-routes a numeric string, and only to the item that the same
+\* number denotes as an integer: with view insertions "2" and 2 agree unless "2" is an alias
+ThmSpelledEidAgrees ==
+  \A v \in Candidates :
+    ResolveWith(v, ins) # ResolveWith(v, {}) =>
+      /\ v.t = "s" /\ v.s \in DOMAIN Numeric
+      /\ ResolveWith(v, ins) = ResolveWith(IntV(Numeric[v.s]), ins)
 
 
 (***************************************************************************)
@@ -107,7 +133,9 @@ ThmDtIdAndValueAgree ==
   \A k \in Items : DtResolve(IntV(k)) = k /\ DtResolve(StrV(DtValue(k))) = k
 
 EmitInv ==
-  PrintT(ToJson([ alias |-> alias, svid |-> svid, eid |-> eid,
-                  refs |-> {[v |-> v, item |-> Resolve(v), rule |-> Rule(v)] : v \in Candidates},
+  PrintT(ToJson([ alias |-> alias, svid |-> svid, eid |-> eid, ins |-> ins,
+                  refs |-> {[v |-> v, item |-> Resolve(v), rule |-> Rule(v),
+                             plain |-> ResolveWith(v, {}), plainrule |-> RuleWith(v, {})]
+                            : v \in Candidates},
                   dtrefs |-> {[v |-> v, item |-> DtResolve(v)] : v \in DtCandidates} ]))
 =============================================================================
